@@ -5,9 +5,9 @@
    acts/src/scheduler/state.rs. *)
 From Coq Require Import List Arith ZArith Bool.
 Import ListNotations.
-From Acts.Gen Require Import GenState.
+From Acts.Gen Require Import GenState GenSchedNext.
 From Acts.Model Require Import Engine Oracles.
-From Acts.Proofs Require Import EngineBasics ReviveInv LogInv C02Core C02Ops FinalProofs.
+From Acts.Proofs Require Import EngineBasics ReviveInv LogInv C02Core C02Ops FinalProofs StatePred SchedNext.
 
 (* every state write of every run, for every node table (well-formed or not), every operation
    sequence and every schedule, moves the task forward through the stages
@@ -66,6 +66,19 @@ Example C02_example :
   pstate e = SCompleted.
 Proof. vm_compute. auto. Qed.
 
+(* the scheduler step, statically tied to the source: gen/GenSchedNext.v is regenerated from Scheduler::next
+   (scheduler.rs) on every run -- the order drop-check, exec, (on an error of exec) set the error, emit it, write the
+   image, with no other way out and no state write of its own; the state predicate of the drop-check.  The model's
+   `step_queue` (the `OSched` / `ODrain` operations every theorem above quantifies over) is the step of that table read
+   through the state predicates regenerated from state.rs; so a task closed while it waited in the queue is not touched
+   (a terminal state is final also for a queued task).  A drop-check with another predicate (only skipped / aborted,
+   say), or moved behind exec, changes the table and breaks this proof. *)
+Theorem C02_scheduler_step_matches_source :
+  (forall e, step_queue e = step_of_source e) /\ sched_order = model_sched_order /\
+  (forall e i q, queue e = i :: q -> is_completed (st (add_ev (with_queue e q) (EPop i)) i) = true ->
+     step_queue e = add_ev (with_queue e q) (EPop i)).
+Proof. split; [exact step_match|]. split; [exact sched_order_match | exact closed_in_queue_untouched]. Qed.
+
 Print Assumptions C02_forward.
 Print Assumptions C02_legal_meaning.
 Print Assumptions C02_terminal_final.
@@ -73,3 +86,4 @@ Print Assumptions C02_revived_at_most_once.
 Print Assumptions C02_write_from_current.
 Print Assumptions C02_states_only_move_forward.
 Print Assumptions C02_terminal_is_final.
+Print Assumptions C02_scheduler_step_matches_source.
